@@ -57,7 +57,8 @@ pub fn invariant_not_decreased(pool: &PoolInfo, before: &[u128], after: &[u128])
 /// (shortfall, tolerance): by how many normalised units (x RES) the ask balance after the swap is
 /// below the smallest balance that preserves the exact invariant, and the pricing tolerance the
 /// implementation actually achieves for a quote (finding S11): eight smallest units of the ask token
-/// plus the value of two smallest units of the offered token (+2 normalised units of iteration dust).
+/// plus the value of two smallest units of the offered token (+2 normalised units of iteration dust)
+/// plus the effect of two units of D on the ask balance.
 fn ask_shortfall(pool: &PoolInfo, before: &[u128], after: &[u128]) -> Option<(BigUint, BigUint)> {
     if let PoolType::StableSwap { amp } = pool.pool_type {
         let (b, mx) = normalise(before, &pool.asset_decimals)?;
@@ -77,7 +78,14 @@ fn ask_shortfall(pool: &PoolInfo, before: &[u128], after: &[u128]) -> Option<(Bi
         let value_two_offer_units = if y > y2 { &y - &y2 } else { BigUint::from(0u32) };
         let aj = &a[j] * &r;
         let short = if y > aj { &y - &aj } else { BigUint::from(0u32) };
-        let tol = (&unit_j * 8u32 + BigUint::from(2u32)) * &r + value_two_offer_units + fixed_point_slack(mx, &d0);
+        // what an error of two smallest units in the contract's D (one-unit stopping rule, S11)
+        // does to the ask balance: below one unit on ordinary pools, ~10 per unit of D on
+        // low-amplification pools at the edge of the 1000:1 range
+        let two = &r * 2u32;
+        let d_lo = if d0 > two { &d0 - &two } else { BigUint::from(0u32) };
+        let y_lo = st.y_scaled(&others(&BigUint::from(0u32)), &d_lo)?;
+        let by_d = if y > y_lo { &y - &y_lo } else { BigUint::from(0u32) };
+        let tol = (&unit_j * 8u32 + BigUint::from(2u32)) * &r + value_two_offer_units + fixed_point_slack(mx, &d0) + by_d;
         return Some((short, tol));
     }
     None
